@@ -576,6 +576,7 @@ class UnitDatabase(Singleton):
         )
 
         self.categories_to_quantity_types[category] = info
+        self._ClearCaches()
         return info
 
     def IsValidCategory(self, category: str) -> bool:
@@ -796,6 +797,16 @@ class UnitDatabase(Singleton):
             raise RuntimeError("Unit already registered: {} ({})".format(name, unit))
 
         quantity_type_list.append(info)
+        self._ClearCaches()
+
+    def _ClearCaches(self) -> None:
+        """
+        Must be called when units/categories are registered: verdicts and quantities cached before
+        (i.e.: a unit which was invalid for a category, the previous definition of an overridden
+        category) may not hold anymore.
+        """
+        self.quantities_cache.clear()
+        self._category_unit_valid.clear()
 
     def AddUnitBase(self, quantity_type: str, name: str, unit: str) -> None:
         """
@@ -1239,8 +1250,7 @@ class UnitDatabase(Singleton):
         self.quantity_types.clear()
         self.categories_to_quantity_types.clear()
         self.unit_to_unit_info.clear()
-        self.quantities_cache.clear()
-        self._category_unit_valid.clear()
+        self._ClearCaches()
 
     # Operations with different quantities ---------------------------------------------------------
     def _DoOperationWithSameQuantity(
